@@ -5,8 +5,8 @@ Router.CanRouteLocally/RouteWrite/RouteQuery, api.decideForward, the handler swi
 composition of the nodes of a cluster of ANY size with ANY registry views):
 C30_one_hop, C30_processor_capable, C30_forwarded_never_reforwarded,
 C30_header_cannot_force_local, C30_header_irrelevant_when_capable, C30_targets_capable,
-C30_served_by_capable_node, and C30_unrouted_endpoint_refuted for handlers that never look
-at the routing decision.
+C30_served_by_capable_node; C30_unrouted_endpoint_refuted states what a handler WITHOUT the
+routing switch would do (no registered endpoint is one since /repo 1a7376f).
 
 Tie 1 (translator, coq/gen/Params_Routing.v re-checked by Obligations.v on every run):
   * the role -> capability table, evaluated by the Go compiler for every Role* constant that
@@ -40,9 +40,11 @@ AREA = "Routing"
 THEOREMS = [("Arc.Routing.Props", t) for t in (
     "C30_one_hop", "C30_processor_capable", "C30_forwarded_never_reforwarded",
     "C30_header_cannot_force_local", "C30_header_irrelevant_when_capable", "C30_targets_capable",
-    "C30_served_by_capable_node", "C30_unrouted_endpoint_refuted")] + [("Arc.Routing.Obligations", t) for t in (
+    "C30_served_by_capable_node")] + [("Arc.Routing.Obligations", t) for t in (
     "C30_capability_table", "C30_endpoints_consult_or_known", "C30_consulting_handlers_wired",
-    "C30_deployed_routed_endpoints", "C30_deployed_unrouted_endpoints")]
+    "C30_deployed_routed_endpoints", "C30_deployed_unrouted_endpoints")] + [
+    # negative result about a handler WITHOUT the routing switch (no registered endpoint is one on the current tree)
+    ("Arc.Routing.Props", "C30_unrouted_endpoint_refuted")]
 MODULES = ["Arc.Routing.Props", "Arc.Routing.Obligations"]
 TIE_NAME = ("C30 correspondence (api.decideForward / handlers / cluster.Router / cluster.Registry vs "
             "Arc.Routing.Model) / Params_Routing")
@@ -299,14 +301,16 @@ def type_table(P, tier):
 
 
 def local_table(P):
-    R = P["roles"]
-    loc = [{"router": False, "has_local": False, "id": "", "role": "", "coq": "{| lc_router := false; lc_local := None |}"},
-           {"router": True, "has_local": False, "id": "", "role": "", "coq": "{| lc_router := true; lc_local := None |}"}]
+    """Local configurations: no router | router without LocalNode | LocalNode of every role x writer state."""
+    R, W = P["roles"], P["wss"]
+    loc = [{"router": False, "has_local": False, "id": "", "role": "", "ws": "", "coq": "{| lc_router := false; lc_local := None |}"},
+           {"router": True, "has_local": False, "id": "", "role": "", "ws": "", "coq": "{| lc_router := true; lc_local := None |}"}]
     for rn, ctor in ROLE_CTOR.items():
-        loc.append({"router": True, "has_local": True, "id": b64("L"), "role": R[rn],
-                    "coq": "{| lc_router := true; lc_local := Some (%s, %s) |}" % (cbytes("L"), ctor)})
-    loc.append({"router": True, "has_local": True, "id": b64("L"), "role": "verif-unknown-role",
-                "coq": "{| lc_router := true; lc_local := Some (%s, OtherRole) |}" % cbytes("L")})
+        for wn, wctor in WS_CTOR.items():
+            loc.append({"router": True, "has_local": True, "id": b64("L"), "role": R[rn], "ws": W[wn],
+                        "coq": "{| lc_router := true; lc_local := Some (%s, %s, %s) |}" % (cbytes("L"), ctor, wctor)})
+    loc.append({"router": True, "has_local": True, "id": b64("L"), "role": "verif-unknown-role", "ws": W["WriterStatePrimary"],
+                "coq": "{| lc_router := true; lc_local := Some (%s, OtherRole, WPrimary) |}" % cbytes("L")})
     return loc
 
 
@@ -373,9 +377,9 @@ def e2e_cases(rng, P, n):
     def fixed(nodes, entry, kind, header=None, route=""):
         cases.append({"nodes": nodes, "entry": entry, "kind": kind, "header": header, "route": route})
 
-    def node(i, rn, view, router=True, has_local=True, nid=None, strategy="rr"):
+    def node(i, rn, view, router=True, has_local=True, nid=None, strategy="rr", wn="WriterStateNone"):
         return {"id": b64(nid if nid is not None else "n%d" % i), "router": router, "has_local": has_local,
-                "role": R[rn] if rn in R else rn, "strategy": strategy, "view": view}
+                "role": R[rn] if rn in R else rn, "ws": W[wn], "strategy": strategy, "view": view}
 
     def ve(i, rn, wn="WriterStateNone", sn="StateHealthy", nid=None, ghost=False):
         return {"node": -1 if ghost else i, "id": b64(nid if nid is not None else "n%d" % i), "role": R[rn] if rn in R else rn,
@@ -384,6 +388,11 @@ def e2e_cases(rng, P, n):
     # hand-written corner cases first
     fixed([node(0, "RoleReader", [ve(1, "RoleWriter")]), node(1, "RoleWriter", [ve(0, "RoleReader")])], 0, 0)
     fixed([node(0, "RoleReader", [ve(1, "RoleWriter")]), node(1, "RoleReader", [ve(0, "RoleWriter")])], 0, 0)          # lying views
+    # failover window: the only healthy writer is a STANDBY; it must serve the forwarded write, and a direct write with a marker
+    fixed([node(0, "RoleReader", [ve(1, "RoleWriter", "WriterStateStandby"), ve(2, "RoleWriter", "WriterStatePrimary", "StateUnhealthy")]),
+           node(1, "RoleWriter", [ve(0, "RoleReader")], wn="WriterStateStandby"), node(2, "RoleWriter", [], wn="WriterStatePrimary")], 0, 0)
+    fixed([node(0, "RoleWriter", [ve(1, "RoleReader")], wn="WriterStateStandby"), node(1, "RoleReader", [])], 0, 0, header=b64("spoofed"))
+    fixed([node(0, "RoleWriter", [ve(1, "RoleReader")], wn="WriterStatePrimary"), node(1, "RoleReader", [])], 0, 0, header=b64("spoofed"))
     fixed([node(0, "RoleReader", [ve(1, "RoleWriter", nid=" ")], nid=""), node(1, "RoleReader", [ve(0, "RoleWriter", nid="")], nid=" ")], 0, 0)
     fixed([node(0, "RoleReader", [ve(1, "RoleWriter", nid="\t")], nid=" "), node(1, "RoleReader", [ve(0, "RoleWriter", nid=" ")], nid="\t")], 0, 0)
     fixed([node(0, "RoleReader", [ve(9, "RoleWriter", nid="ghost", ghost=True)])], 0, 0)
@@ -423,8 +432,9 @@ def e2e_cases(rng, P, n):
             if rng.random() < 0.1:
                 view.append(ve(90 + i, rng.choice(["RoleWriter", "RoleReader"]), nid="ghost%d" % i, ghost=True))
             router = rng.random() > 0.07
+            own_ws = rng.choice(list(WS_CTOR)) if actual[i] == "RoleWriter" or rng.random() < 0.15 else "WriterStateNone"
             nodes.append(node(i, actual[i], view, router=router, has_local=rng.random() > 0.04, nid=ids[i].decode("latin-1"),
-                              strategy=rng.choice(["rr", "lc", "random"])))
+                              strategy=rng.choice(["rr", "lc", "random"]), wn=own_ws))
         header = None
         if rng.random() < 0.25:
             header = b64(rng.choice([b"x", b" ", b"", b"\t", b"n0", b"  spoof ", b"\x01"]))
@@ -480,7 +490,7 @@ def e2e_coq(P, c, o):
             continue
         view = [node_coq(P, unb64(v["id"]), v["role"], v["ws"], v["state"]) for v in nd["view"]]
         if nd["has_local"]:
-            me = node_coq(P, nid, nd["role"], P["wss"]["WriterStateNone"], P["states"]["StateHealthy"])
+            me = node_coq(P, nid, nd["role"], nd.get("ws", P["wss"]["WriterStateNone"]), P["states"]["StateHealthy"])
             nodes.append("{| a_id := %s; a_router := Some {| r_local := Some %s; r_reg := %s |} |}" % (cbytes(nid), me, clist([me] + view)))
         else:
             nodes.append("{| a_id := %s; a_router := Some {| r_local := None; r_reg := %s |} |}" % (cbytes(nid), clist(view)))
@@ -594,8 +604,9 @@ def harness_input(P, tier, seed, sections=("sweep", "decide", "endpoints", "e2e"
     types = type_table(P, tier)
     locals_ = local_table(P)
     inp = {"roles": list(P["roles"].values()) + UNKNOWN_ROLES, "types": [{k: t[k] for k in ("role", "ws", "state")} for t in types],
-           "locals": [{k: l[k] for k in ("router", "has_local", "id", "role")} for l in locals_], "trials": 1,
-           "sweep": [], "decide": [], "endpoints": [], "e2e": [], "wired": P["wired"]}
+           "locals": [{k: l[k] for k in ("router", "has_local", "id", "role", "ws")} for l in locals_], "trials": 1,
+           "sweep": [], "decide": [], "endpoints": [], "e2e": [], "wired": P["wired"],
+           "ws_standby": P["wss"]["WriterStateStandby"], "ws_primary": P["wss"]["WriterStatePrimary"]}
     meta = {"types": types, "locals": locals_}
     meta["sweep_pass_len"] = 0
     if "sweep" in sections:
@@ -704,20 +715,20 @@ def run(res, tier, seed):
     res.stage("coq_eval", t2)
 
     # ---- coverage -------------------------------------------------------------------------
-    n_eval = len(sw_terms) + len(dc_terms) + 4 * len(ep_terms) + len(ee_terms)
+    n_eval = len(sw_terms) + len(dc_terms) + 6 * len(ep_terms) + len(ee_terms)
     res.cov["evaluations"] = n_eval
     sweep_nontrivial = sum(1 for c in inp["sweep"] if locals_[c[0]]["router"])
     distinct = len({json.dumps(c[:3] + c[4:]) for c in inp["sweep"] if locals_[c[0]]["router"]})
     dd = len({(d["local"], d["kind"], tuple(d["vals"])) for d in meta["decide"]})
     de = len({json.dumps({k: c[k] for k in ("nodes", "entry", "kind", "header", "route")}, sort_keys=True) for c, o in zip(meta["e2e"], out["e2e"])
               if len(c["nodes"]) >= 2})
-    res.cov["distinct_nontrivial"] = distinct + dd + 4 * len(ep_terms) + de
+    res.cov["distinct_nontrivial"] = distinct + dd + 6 * len(ep_terms) + de
     res.cov["exhaustive"] = True
-    res.cov["rule"] = ("exhaustive sweep: every (local configuration: no router | router without LocalNode | router with each of %d roles) x "
+    res.cov["rule"] = ("exhaustive sweep: every (local configuration: no router | router without LocalNode | LocalNode of every role x writer state: %d) x "
                        "(write|query) x (client marker absent|present) x every multiset of 0..3 peers over %d node types "
                        "(role x writer state x health), i.e. clusters of 1..4 nodes, through the real handler, Router and Registry "
                        "(%d cases, non-trivial = a router is present: %d); plus decideForward on %d distinct wire-level header cases, "
-                       "%d endpoints x 4 scenarios with real back ends, and %d distinct clusters of >= 2 real nodes (path, hops, marker)"
+                       "%d endpoints x 6 scenarios with real back ends, and %d distinct clusters of >= 2 real nodes (path, hops, marker)"
                        % (len(locals_) - 2, len(types), len(sw_terms), sweep_nontrivial, dd, len(ep_terms), de))
     classes = {}
     for obs in out["sweep"]:
@@ -750,17 +761,25 @@ def run(res, tier, seed):
     for i in ep["oracle"]:
         e, o = P["endpoints"][i], out["endpoints"][i]
         sig = finding_signature(e)
+        incapable_served = any(x["class"] == 0 for x in o["obs"][:2])
         predicted = (i not in ep["agree"]) and not e["consults"]
-        if sig in known and predicted:
+        if incapable_served and sig in known and predicted:
             res.known_finding("%s %s is processed locally by a node whose role cannot serve it (handler %s.%s never consults the routing "
                               "decision): scenario reader/compactor node -> HTTP %d instead of forward/508"
                               % (e["method"], e["route"], e["type"], e["func"], o["obs"][0]["status"]))
+            continue
+        if incapable_served:
+            what = "a node whose role cannot serve the request processed it locally"
         else:
-            res.violation("%s %s: a node whose role cannot serve the request processed it locally" % (e["method"], e["route"]),
-                          {"kind": "endpoint-processed-by-incapable-node", "endpoint": e, "request": inp["endpoints"][i],
-                           "observed": o["obs"], "model_predicted_this": predicted,
-                           "how_to_replay": "python3 tools/check.py C30 --replay <this file>"}, suffix="endpoint")
-            reported = True
+            bad = [k for k, x in enumerate(o["obs"]) if k >= 2 and x["class"] != 0]
+            what = ("a node that CAN serve the request did not process it (scenario %s: %s -> HTTP %s)"
+                    % (bad, ["", "", "writer, no marker", "no router", "standby writer + client marker", "primary writer + client marker"][bad[0]] if bad else "?",
+                       o["obs"][bad[0]]["status"] if bad else "?"))
+        res.violation("%s %s: %s" % (e["method"], e["route"], what),
+                      {"kind": "endpoint-oracle", "endpoint": e, "request": inp["endpoints"][i],
+                       "observed": o["obs"], "model_predicted_this": predicted,
+                       "how_to_replay": "python3 tools/check.py C30 --replay <this file>"}, suffix="endpoint")
+        reported = True
     deferred = []            # correspondence-only reports go after the concrete failing inputs
     ep_corr = [i for i in ep["agree"] if i not in ep["oracle"]]
     if ep_corr:
@@ -821,14 +840,14 @@ def replay(res, path):
     obj = json.load(open(path))
     P = static_facts()
     kind = obj.get("kind", "")
-    if kind == "endpoint-processed-by-incapable-node" or obj.get("section") == "endpoints":
+    if kind in ("endpoint-processed-by-incapable-node", "endpoint-oracle") or obj.get("section") == "endpoints":
         inp, meta = harness_input(P, "quick", 1, sections=())
         inp["endpoints"] = [obj["request"]]
         out = run_harness(inp, "replay")
         o = out["endpoints"][0]["obs"]
-        bad = o[0]["class"] == 0 or o[1]["class"] == 0
+        bad = o[0]["class"] == 0 or o[1]["class"] == 0 or any(x["class"] != 0 for x in o[2:])
         print("observed scenario classes:", [x["class"] for x in o], "statuses:", [x["status"] for x in o],
-              "| incapable node processed locally:", bad)
+              "| incapable node processed locally or capable node refused:", bad)
         return 1 if bad else 0
     sec = obj.get("section")
     if sec in ("sweep", "decide", "e2e") and obj.get("case") is not None:
